@@ -197,3 +197,24 @@ def _():
     d2 = _rt(d)
     if d2.get_display_aspect_ratio() != d.get_display_aspect_ratio(): return f"display aspect ratio 2000001/1000000 is re-read as {d2.get_display_aspect_ratio()}"
     if d2.get_px_resolution() != d.get_px_resolution(): return f"pixel resolution 2000000x1000000 is re-read as {d2.get_px_resolution()}"
+
+
+# ---- colours: what the writer prints is a strict TTML2 <color> and is read back; the reader accepts nothing longer (must pass)
+@witness("C05", "color-strict-roundtrip")
+def _():
+    import re, ttconv.model as m, ttconv.style_properties as s
+    import xml.etree.ElementTree as et, ttconv.imsc.writer as w
+    from ttconv.utils import parse_color
+    for comps in [(0, 0, 0, 255), (255, 255, 255, 255), (1, 2, 3, 4), (255, 0, 0, 0), (16, 15, 160, 254), (0, 0, 0, 1), (171, 205, 239, 18)]:
+        d, p, sp = _base(); sp.push_child(m.Text(d, "A")); sp.set_style(s.StyleProperties.Color, s.ColorType(comps))
+        buf = io.BytesIO(); w.from_model(d, None).write(buf, encoding="utf-8")
+        attrs = [e.get("{http://www.w3.org/ns/ttml#styling}color") for e in et.fromstring(buf.getvalue()).iter() if e.get("{http://www.w3.org/ns/ttml#styling}color")]
+        if len(attrs) != 1 or not re.fullmatch(r"#[0-9a-f]{6}([0-9a-f]{2})?", attrs[0]): return f"colour {comps} is written as {attrs}"
+        got = _span(_rt(d)).get_style(s.StyleProperties.Color)
+        if got is None or tuple(got.components) != comps: return f"colour {comps} (written {attrs[0]}) is re-read as {got}"
+        for tail in ("0", " ", "ff0", "\n"):
+            try:
+                c = parse_color(attrs[0] + tail)
+            except ValueError:
+                continue
+            if len(attrs[0] + tail) != 9: return f"the reader accepts {attrs[0] + tail!r} as {c.components}"
